@@ -549,4 +549,78 @@ def exactWfBody : Body → Bool
   | .root _ items => exactWfItems items && exactLevel items
   | .derived .. => false
 
+/-! ### values of the generated types (C05: "encode never panics") -/
+
+/-- the value has what a bit-field of the generated struct needs: an integer of the backing type, a valid
+    enum value, an array for every size / count / element-size target -/
+def typedBf (all : Items) (v : Value) : BitField → Bool
+  | .scalar id w => (match v.get? id with | some (.int x) => decide (x < 2 ^ backingOf w) | _ => false)
+  | .enumTy id _ e => (match v.get? id with | some (.int x) => enumOk e x | _ => false)
+  | .flag _ opts => !opts.isEmpty
+  | .fixed .. => true
+  | .reserved _ => true
+  | .size t _ _ =>
+    t == "_payload_" || t == "_body_" ||
+    (match firstArray all t, v.get? t with | some _, some (.arr _) => true | _, _ => false)
+  | .count t _ => (match v.get? t with | some (.arr _) => true | _ => false)
+  | .elemSize t _ => (match firstArray all t, v.get? t with | some _, some (.arr _) => true | _, _ => false)
+
+mutual
+/-- `v` is a value of the Rust type generated for the layout: every field present with the right shape,
+    integers within their backing type, enum values valid, `[T; N]` arrays of length `N` -/
+def typedTy : Ty → Value → Bool
+  | .scalar w, v => (match v with | .int x => decide (x < 2 ^ backingOf w) | _ => false)
+  | .enumTy _ e, v => (match v with | .int x => enumOk e x | _ => false)
+  | .custom _ w, v => (match v with | .int x => decide (x < 2 ^ w) | _ => false)
+  | .struct _ b, v => typedBody b v
+def typedItem (all : Items) (v : Value) : Item → Bool
+  | .chunk fs => fs.all (typedBf all v)
+  | .typedef id ty _ => (match v.get? id with | some x => typedTy ty x | none => false)
+  | .optional id ty _ _ =>
+    (match v.get? id with
+     | some .null | none => true
+     | some x => typedTy ty x)
+  | .payload _ => true
+  | .array id elem _ shape _ =>
+    (match v.get? id with
+     | some (.arr vs) => vs.all (typedTy elem) && (match shape with | .static n => vs.length == n | _ => true)
+     | _ => false)
+def typedItems (all : Items) (v : Value) : Items → Bool
+  | .nil => true
+  | .cons i r => typedItem all v i && typedItems all v r
+def typedBody : Body → Value → Bool
+  | .root _ items, v =>
+    typedItems items v items && (!items.hasPayload || ((v.get? "payload").bind valBytes).isSome)
+  | .derived _ parent _ allCs items, v =>
+    typedItems items (withConstants allCs v) items &&
+    (!items.hasPayload || ((v.get? "payload").bind valBytes).isSome) &&
+    typedAround parent (withConstants allCs v)
+def typedAround : Body → Value → Bool
+  | .root _ items, v => typedItems items v items
+  | .derived _ parent _ _ items, v => typedItems items v items && typedAround parent v
+end
+
+/-! ### statically sized layouts whose decoder reads exactly the static size (Lemmas/Local) -/
+
+mutual
+/-- the static annotations the locality theorem relies on: a statically sized array says so in its element
+    width, fields are typed by structs without parent -/
+def localWfTy : Ty → Bool
+  | .struct _ (.root _ items) => localWfItems items
+  | .struct _ (.derived ..) => false
+  | _ => true
+def localWfItem : Item → Bool
+  | .typedef _ ty _ => localWfTy ty
+  | .array _ elem ew shape pad =>
+    localWfTy elem &&
+    (match pad, shape with
+     | none, .static _ => (match ew with | .static w => staticTy elem == some w | _ => false)
+     | _, _ => true)
+  | _ => true
+def localWfItems : Items → Bool
+  | .nil => true
+  | .cons i r => localWfItem i && localWfItems r
+end
+
+
 end Pdlv
